@@ -10,7 +10,7 @@
 
 namespace sim {
 
-struct PMsg { std::string dir, name, content; int64_t mtime; bool listed = false; bool vanished = false; size_t vanish_at = (size_t)-1; bool deleted = false; std::string path() const { return dir + "/" + name; } std::string uid() const { return name.substr(0, name.find(':')); } };
+struct PMsg { std::string dir, name, content; uint64_t hole = 0; uint64_t sz() const { return content.size() + hole; } int64_t mtime; bool listed = false; bool vanished = false; size_t vanish_at = (size_t)-1; bool deleted = false; std::string path() const { return dir + "/" + name; } std::string uid() const { return name.substr(0, name.find(':')); } };
 
 struct WorldP : World {
   QmailTree t;
@@ -38,8 +38,8 @@ struct WorldP : World {
     for (const char *s : {"/tmp", "/new", "/cur"}) k->mkdir_p(md + s, 0700, 1001, 1001);
     popup = plan->knobs.getb("popup", false); as_root = plan->knobs.getb("as_root", false);
     for (auto &f : plan->knobs["files"].a) {
-      PMsg m; m.dir = f.gets("dir", "new"); m.name = f.gets("name"); m.content = f.gets("content"); m.mtime = k->clock - f.geti("age", 100);
-      Inode *i = k->put_file(md + "/" + m.path(), m.content, 0600, 1001, 1001); i->mtime = m.mtime; i->atime = m.mtime; files.push_back(m);
+      PMsg m; m.dir = f.gets("dir", "new"); m.name = f.gets("name"); m.content = f.gets("content"); m.mtime = k->clock - f.geti("age", 100); m.hole = (uint64_t)f.geti("hole", 0);
+      Inode *i = k->put_file(md + "/" + m.path(), m.content, 0600, 1001, 1001); i->mtime = m.mtime; i->atime = m.mtime; i->hole = m.hole; if (m.hole) k->probe("sparse_message_planted"); files.push_back(m);
     }
     for (auto &f : plan->knobs["tmpfiles"].a) { Inode *i = k->put_file(md + "/tmp/" + f.gets("name"), "tmp", 0600, 1001, 1001); i->atime = i->mtime = k->clock - f.geti("age", 0); (f.geti("age", 0) > 129600 ? stale_tmp : fresh_tmp).insert(f.gets("name")); }
     for (auto &op : plan->ops.a) if (op.gets("op") == "mua") mua.push_back({(size_t)op.geti("after", 0), op});
@@ -215,11 +215,11 @@ struct WorldP : World {
       if (!numbered) { if (v == "quit") { if (!ok) { fail("C19.quit", ctx); return; } quit_done = true; ci++; break; } continue; }   // the plan always asks UIDL first; anything before it is only run
       size_t N = num.size();
       auto valid = [&](const std::string &a, long &i0, bool &syntax) -> bool { syntax = false; long u; if (!msgno(a, u)) { syntax = true; return false; } if (u == 0) return false; if ((size_t)u > N) return false; i0 = u - 1; if (num[(size_t)i0]->deleted) return false; return true; };
-      if (v == "stat") { uint64_t total = 0; for (auto *f : num) if (!f->deleted) total += f->content.size(); size_t sp = r.rfind(' '); if (!ok || sp == std::string::npos || strtoull(r.c_str() + sp + 1, 0, 10) != total) { fail("C19.stat-size", ctx + ", undeleted messages total " + std::to_string(total) + " bytes"); return; } }
+      if (v == "stat") { uint64_t total = 0; for (auto *f : num) if (!f->deleted) total += f->sz(); size_t sp = r.rfind(' '); if (!ok || sp == std::string::npos || strtoull(r.c_str() + sp + 1, 0, 10) != total) { fail("C19.stat-size", ctx + ", undeleted messages total " + std::to_string(total) + " bytes"); return; } }
       else if (v == "list" || v == "uidl") {
         bool uid = v == "uidl";
-        if (arg.empty()) { std::string want = "+OK \r\n"; for (size_t q = 0; q < N; q++) if (!num[q]->deleted) want += std::to_string(q + 1) + " " + (uid ? num[q]->uid() : std::to_string(num[q]->content.size())) + "\r\n"; want += ".\r\n"; if (r != want) { fail("C19.listing", ctx + ", expected \"" + printable(want, 80) + "\""); return; } }
-        else { long i0; bool syn; if (!valid(arg, i0, syn)) { if (ok) { fail("C19.bad-number-accepted", ctx); return; } } else { std::string want = "+OK " + std::to_string(i0 + 1) + " " + (uid ? num[(size_t)i0]->uid() : std::to_string(num[(size_t)i0]->content.size())) + "\r\n"; if (r != want) { fail("C19.listing", ctx + ", expected \"" + printable(want, 60) + "\""); return; } } }
+        if (arg.empty()) { std::string want = "+OK \r\n"; for (size_t q = 0; q < N; q++) if (!num[q]->deleted) want += std::to_string(q + 1) + " " + (uid ? num[q]->uid() : std::to_string(num[q]->sz())) + "\r\n"; want += ".\r\n"; if (r != want) { fail("C19.listing", ctx + ", expected \"" + printable(want, 80) + "\""); return; } }
+        else { long i0; bool syn; if (!valid(arg, i0, syn)) { if (ok) { fail("C19.bad-number-accepted", ctx); return; } } else { std::string want = "+OK " + std::to_string(i0 + 1) + " " + (uid ? num[(size_t)i0]->uid() : std::to_string(num[(size_t)i0]->sz())) + "\r\n"; if (r != want) { fail("C19.listing", ctx + ", expected \"" + printable(want, 60) + "\""); return; } } }
       }
       else if (v == "retr" || v == "top") {
         long i0; bool syn; if (!valid(arg, i0, syn)) { if (ok) { fail("C19.bad-number-accepted", ctx); return; } continue; }
